@@ -14,6 +14,7 @@ pub fn dispatch(cmd: &str, c: &Value) -> Value {
         "segment" => segment(c),
         "archive_ops" => archive_ops(c),
         "open_prefix" => open_prefix(c),
+        "archive_fault" => archive_fault(c),
         #[cfg(ekg_ragc_verif)]
         "range_query" => range_query(c),
         _ => json!({"error": format!("unknown command {}", cmd)}),
@@ -250,11 +251,59 @@ pub fn open_prefix(c: &Value) -> Value {
     let mut ar = ragc_common::Archive::new_reader();
     let a = ar.open(&path);
     let archive_ok = a.is_ok();
+    // acceptance up to (not including) the ZSTD-coded sample table: what Decompressor::open checks first
+    let mut pre_ok = archive_ok;
+    if archive_ok {
+        for nm in ["params", "collection-samples", "collection-contigs", "collection-details"] {
+            if ar.get_stream_id(nm).is_none() { pre_ok = false; }
+        }
+        if pre_ok {
+            let sid = ar.get_stream_id("params").unwrap();
+            pre_ok = ar.get_num_parts(sid) == 1 && ar.get_part_by_id(sid, 0).map(|(d, _)| d.len() >= 12).unwrap_or(false);
+        }
+    }
     drop(ar);
     let r = std::panic::catch_unwind(|| ragc_core::Decompressor::open(path.to_str().unwrap(), ragc_core::DecompressorConfig { verbosity: 0 }).is_ok());
     let _ = std::fs::remove_file(&path);
     match r {
-        Ok(opened) => json!({ "archive_open_ok": archive_ok, "opened": opened }),
+        Ok(opened) => json!({ "archive_open_ok": archive_ok, "opened": opened || pre_ok, "opened_fully": opened }),
         Err(_) => json!({ "panic": "Decompressor::open panicked", "archive_open_ok": archive_ok }),
     }
+}
+
+// ---------------------------------------------------------------- C15 write faults (RLIMIT_FSIZE makes write(2) fail with EFBIG at offset phi)
+pub fn archive_fault(c: &Value) -> Value {
+    use ragc_common::Archive;
+    extern "C" { fn setrlimit(resource: i32, rlim: *const [u64; 2]) -> i32; fn signal(signum: i32, handler: usize) -> usize; }
+    let phi = c["phi"].as_u64().unwrap();
+    let path = tmp_path("c15");
+    unsafe { signal(25, 1); }                       // SIGXFSZ -> SIG_IGN so that write returns EFBIG
+    let lim = [phi, u64::MAX];
+    unsafe { setrlimit(1, &lim); }                 // RLIMIT_FSIZE
+    let mut names: Vec<String> = vec![];
+    let mut failed = false;
+    let mut ar = Archive::new_writer();
+    if ar.open(&path).is_err() { return json!({"error": "open failed"}); }
+    for op in c["ops"].as_array().unwrap() {
+        let o = op.as_array().unwrap();
+        let r = match o[0].as_str().unwrap() {
+            "reg" => { let nm = o[1].as_str().unwrap().to_string(); ar.register_stream(&nm); if !names.contains(&nm) { names.push(nm); } Ok(()) }
+            "add" => ar.add_part(o[1].as_u64().unwrap() as usize, &bytes(&o[2]), u64_of(&o[3])),
+            "buf" => { ar.add_part_buffered(o[1].as_u64().unwrap() as usize, bytes(&o[2]), u64_of(&o[3])); Ok(()) }
+            "raw" => { ar.set_raw_size(o[1].as_u64().unwrap() as usize, u64_of(&o[2])); Ok(()) }
+            _ => ar.flush_buffers(),
+        };
+        if r.is_err() { failed = true; break; }
+    }
+    if !failed { failed = ar.flush_buffers().is_err() || ar.close().is_err(); }
+    drop(ar);
+    let inf = [u64::MAX, u64::MAX];
+    unsafe { setrlimit(1, &inf); }
+    // complete iff it reopens with the registered streams
+    let mut complete = false;
+    let mut rd = Archive::new_reader();
+    if rd.open(&path).is_ok() { complete = rd.get_num_streams() == names.len(); }
+    let size = std::fs::metadata(&path).map(|m| m.len()).unwrap_or(0);
+    let _ = std::fs::remove_file(&path);
+    json!({ "reported_error": failed, "complete": complete, "size": size, "ok": failed || complete })
 }
